@@ -14,7 +14,8 @@ open Ro Ro.Driver Ro.Facts
 def rowOf (n : String) : Option OpFact := RoGen.Catalogue.table.find? (·.name == n)
 
 def run (c : Case) : String :=
-  let names := (c.getD "rows" "").splitOn ","
+  -- `Row#variant`: the same row with another parameter choice on the harness side
+  let names := ((c.getD "rows" "").splitOn ",").map fun n => (n.splitOn "#").headD n
   match (("MergeAll" :: names).filter (· ≠ "")).mapM rowOf with
   | some rows =>
     match emitMode rows with
